@@ -63,7 +63,7 @@ func genC17(seed uint64, r *rng.Rand) *Plan {
 	if g.R.Chance(0.4) {
 		at = g.R.Range(1, 6)
 	}
-	scen := []string{"retry-later", "flaky-server", "fatal-forever", "never-online", "meta-silent", "meta-down", "zk-errors", "log-closed", "fatal-in-multi", "nsre-request-only", "mixed-batch"}[g.R.Intn(11)]
+	scen := []string{"retry-later", "flaky-server", "fatal-forever", "never-online", "meta-silent", "meta-down", "zk-errors", "log-closed", "fatal-in-multi", "nsre-request-only", "mixed-batch", "meta-rows-bad"}[g.R.Intn(12)]
 	p.Scenario = scen
 	switch scen {
 	case "retry-later":
@@ -110,6 +110,14 @@ func genC17(seed uint64, r *rng.Rand) *Plan {
 				cls = hb.FatalClasses[g.R.Intn(len(hb.FatalClasses))]
 			}
 			p.Rules = append(p.Rules, &hb.Rule{Nonce: b.Batch[j].Nonce, Class: cls, Count: -1, Server: -1, Level: "action"})
+		}
+	case "meta-rows-bad":
+		// hbase:meta answers, but what it says about the table's regions is unusable
+		kind := []string{"regioninfo-offline", "server-empty", "server-absent", "regioninfo-bad-proto", "regioninfo-empty", "regioninfo-absent"}[g.R.Intn(6)]
+		p.Faults = append(p.Faults, &Fault{On: "exec", N: at, Act: "metabad", Rule: &hb.Rule{Msg: kind}})
+		if at > 0 {
+			// make the client look the regions up again
+			p.Faults = append(p.Faults, &Fault{On: "exec", N: at, Act: "rule", Rule: &hb.Rule{Class: hb.NotServingClasses[g.R.Intn(2)], Count: -1, Server: -1, Level: "region", Table: ts.Name}})
 		}
 	case "nsre-request-only":
 		p.Faults = append(p.Faults, &Fault{On: "exec", N: at, Act: "rule", Rule: &hb.Rule{Class: hb.NotServingClasses[g.R.Intn(2)], Count: -1, Server: -1, Level: []string{"action", "region"}[g.R.Intn(2)]}})
@@ -264,7 +272,12 @@ func (w *World) checkC17() []Violation {
 	for a, ts := range dials {
 		vs = append(vs, w.checkStream(stream{name: "scenario " + scen + ", failing dials of " + a, times: ts, free: ntasks})...)
 	}
-	_ = metas
+	if scen == "meta-rows-bad" && len(w.Plan.Tasks) == 1 && len(w.Plan.Tasks[0].Ops) == 1 && w.Plan.Tasks[0].Ops[0].Kind != "batch" &&
+		len(w.Plan.Faults) == 1 && w.Plan.Faults[0].N == 0 {
+		// one call, hbase:meta unusable from the start: all lookups are the
+		// attempts of that call's lookup loop, one stream
+		vs = append(vs, w.checkStream(stream{name: "scenario " + scen + ", hbase:meta lookups", times: metas, free: 1})...)
+	}
 	// (4) hot loop: the run consumed its step budget while fake time stood still
 	if n := w.Env.MaxInstantSteps; n > 40000 {
 		vs = append(vs, w.viol("C17", "hot-loop", "scenario %s: %d consecutive scheduler steps were taken without the simulated clock advancing (%d requests executed in the run): retries are not separated by waits", scen, n, len(c.Execs)))
